@@ -2,7 +2,7 @@
 two (thorough: three) calls, HistGen exports histories, harness/cmd/histreplay replays a seeded sample on the real library -
 one fresh process per history, every call compared with the same call made alone in a fresh ordinary process. A check
 reports the finding kinds it owns:
-  compile, text, resolve -> C13    installed -> C08    flags -> C10    nnp -> C11    getinfo, table -> C12    dump -> note
+  compile, text, resolve -> C13    installed -> C08    flags -> C10    nnp -> C11    getinfo, table -> C12    parse -> C14    dump -> note
 """
 import json
 import os
@@ -12,8 +12,8 @@ import vlib
 
 MC_CFG = "CONSTANTS\n  MaxCalls = %d\n  Dev = %s\nSPECIFICATION Spec\nINVARIANTS Memoryless%s\nCHECK_DEADLOCK FALSE\n"
 GEN_CFG = ("CONSTANTS\n  MaxCalls = 0\n  Dev = {}\n  OutFile = \"%s\"\n  Stride = %d\n  Offset = %d\n  Triples = TRUE\nSPECIFICATION Spec\nCHECK_DEADLOCK FALSE\n")
-OPS = {"C13": {"compile", "text", "resolve", "dump"}, "C08": {"load"}, "C10": {"load"}, "C11": {"load"}, "C12": {"getinfo", "table", "resolve"}}
-OWNS = {"C13": {"compile", "text", "resolve"}, "C08": {"installed"}, "C10": {"flags"}, "C11": {"nnp"}, "C12": {"getinfo", "table"}}
+OPS = {"C13": {"compile", "text", "resolve", "dump"}, "C08": {"load"}, "C10": {"load"}, "C11": {"load"}, "C12": {"getinfo", "table", "resolve"}, "C14": {"parse", "text"}}
+OWNS = {"C13": {"compile", "text", "resolve"}, "C08": {"installed"}, "C10": {"flags"}, "C11": {"nnp"}, "C12": {"getinfo", "table"}, "C14": {"parse"}}
 
 
 def mc_job(maxcalls=2, dev="{}", name="Hist"):
